@@ -77,6 +77,8 @@ class Rule:
             func = None
         if node is not None and line is None:
             line = getattr(node, "lineno", None)
+        if line is None and fn is not None:
+            line = fn.node.lineno  # at least the function's own position
         f = Finding(self.check.prop, self.id, key, msg, file, line, func, witness, construct)
         # the same construct reported twice (e.g. by two paths) is one finding
         for g in self.findings:
